@@ -34,6 +34,13 @@ func die(code int, format string, a ...interface{}) {
 func main() {
 	logrus.SetOutput(io.Discard)
 	logrus.SetLevel(logrus.PanicLevel)
+	if f := os.Getenv("VERIF_DEBUG_LOG"); f != "" {
+		// debugging aid: the services' own logs, one file per process
+		if w, err := os.OpenFile(fmt.Sprintf("%s.%d", f, os.Getpid()), os.O_CREATE|os.O_WRONLY|os.O_APPEND, 0o644); err == nil {
+			logrus.SetOutput(w)
+			logrus.SetLevel(logrus.ErrorLevel)
+		}
+	}
 	stdlog.SetOutput(io.Discard) // net/http and httputil.ReverseProxy report upstream errors here
 	if len(os.Args) < 3 {
 		die(2, "usage: verif check|replay|worker ...")
